@@ -1347,11 +1347,13 @@ func enumeratePaths(fn *ssa.Function, maxPaths int, visit func(in ssa.Instructio
 // ---------------------------------------------------------------------------
 // abstract path interpretation over assumed boolean facts
 
-// absPath is one feasible path of a loop-free function under the assumptions.
+// absPath is one feasible path under the assumptions.
 type absPath struct {
-	Instrs []ssa.Instruction
-	Ret    *ssa.Return
-	St     *pathState
+	Instrs  []ssa.Instruction
+	Ret     *ssa.Return     // the path ends in this return (nil if it ended at a stop point)
+	End     ssa.Instruction // the stop instruction the path ended at (walkPaths)
+	EndEdge *cfgEdge        // the stop edge the path ended with (walkPaths); it is part of St.Edges
+	St      *pathState
 }
 
 // abstractPaths enumerates the acyclic paths of fn that are feasible under
@@ -1359,8 +1361,38 @@ type absPath struct {
 // (comparisons, call results); conditions are evaluated through NOT, phis
 // chosen on the path and constants. Unknown conditions fork.
 func abstractPaths(fn *ssa.Function, maxPaths int, assume func(v ssa.Value) (bool, bool)) ([]absPath, bool) {
+	return walkPaths(fn.Blocks[0], 0, maxPaths, assume, nil, nil)
+}
+
+var walkDepth int
+
+// evalUnder evaluates a boolean value on a finished path under the assumptions (constants, NOT,
+// phis chosen on the path, assumed values).
+func evalUnder(st *pathState, v ssa.Value, assume func(v ssa.Value) (bool, bool)) (bool, bool) {
+	v = st.resolve(v)
+	if b, isC := constBool(v); isC {
+		return b, true
+	}
+	if b, known := assume(v); known {
+		return b, true
+	}
+	if u, isU := v.(*ssa.UnOp); isU && u.Op == token.NOT {
+		if b, known := evalUnder(st, u.X, assume); known {
+			return !b, true
+		}
+	}
+	return false, false
+}
+
+// walkPaths is abstractPaths from an arbitrary program point; a path also ends (and is recorded)
+// at an instruction for which stop returns true or when it is about to take an edge for which
+// stopEdge returns true. Paths that would revisit a block are dropped.
+func walkPaths(start *ssa.BasicBlock, startIdx int, maxPaths int, assume func(v ssa.Value) (bool, bool), stop func(in ssa.Instruction) bool, stopEdge func(e cfgEdge) bool) ([]absPath, bool) {
 	var out []absPath
 	ok := true
+	if assume == nil {
+		assume = func(ssa.Value) (bool, bool) { return false, false }
+	}
 	var eval func(st *pathState, v ssa.Value) (bool, bool)
 	eval = func(st *pathState, v ssa.Value) (bool, bool) {
 		v = st.resolve(v)
@@ -1386,16 +1418,58 @@ func abstractPaths(fn *ssa.Function, maxPaths int, assume func(v ssa.Value) (boo
 				return l != r, true
 			}
 		}
+		if call, isCall := v.(*ssa.Call); isCall {
+			// an immediately-invoked bool literal (an inlined predicate helper): known when every
+			// path through it that is feasible under the assumptions yields the same known value
+			if g := iifeCallee(call); g != nil && g.Signature.Results().Len() == 1 && g.Signature.Results().At(0).Type().String() == "bool" && len(loopsOf(g)) == 0 && walkDepth < 3 {
+				walkDepth++
+				sub, okS := walkPaths(g.Blocks[0], 0, 256, assume, nil, nil)
+				walkDepth--
+				if okS && len(sub) > 0 {
+					val, first, all := false, true, true
+					for _, sp := range sub {
+						if sp.Ret == nil {
+							continue
+						}
+						walkDepth++
+						r, known := evalUnder(sp.St, sp.Ret.Results[0], assume)
+						walkDepth--
+						if !known {
+							all = false
+							break
+						}
+						if first {
+							val, first = r, false
+						} else if r != val {
+							all = false
+							break
+						}
+					}
+					if all && !first {
+						return val, true
+					}
+				}
+			}
+		}
 		return false, false
 	}
-	var walk func(b, pred *ssa.BasicBlock, st *pathState, instrs []ssa.Instruction, onPath map[*ssa.BasicBlock]bool)
-	walk = func(b, pred *ssa.BasicBlock, st *pathState, instrs []ssa.Instruction, onPath map[*ssa.BasicBlock]bool) {
+	record := func(p absPath) {
+		out = append(out, p)
+		if len(out) > maxPaths {
+			ok = false
+		}
+	}
+	var walk func(b, pred *ssa.BasicBlock, from int, st *pathState, instrs []ssa.Instruction, onPath map[*ssa.BasicBlock]bool)
+	walk = func(b, pred *ssa.BasicBlock, from int, st *pathState, instrs []ssa.Instruction, onPath map[*ssa.BasicBlock]bool) {
 		if !ok || onPath[b] {
 			return
 		}
 		onPath[b] = true
 		defer delete(onPath, b)
-		for _, in := range b.Instrs {
+		for idx, in := range b.Instrs {
+			if idx < from {
+				continue
+			}
 			if p, isPhi := in.(*ssa.Phi); isPhi {
 				for i, pr := range b.Preds {
 					if pr == pred {
@@ -1404,6 +1478,10 @@ func abstractPaths(fn *ssa.Function, maxPaths int, assume func(v ssa.Value) (boo
 				}
 			}
 			instrs = append(instrs, in)
+			if stop != nil && stop(in) {
+				record(absPath{Instrs: instrs, End: in, St: st})
+				return
+			}
 			switch x := in.(type) {
 			case *ssa.If:
 				val, known := eval(st, x.Cond)
@@ -1418,25 +1496,34 @@ func abstractPaths(fn *ssa.Function, maxPaths int, assume func(v ssa.Value) (boo
 					for k, v := range st.Edges {
 						ns.Edges[k] = v
 					}
-					ns.Edges[cfgEdge{b, i}] = true
-					walk(b.Succs[i], b, ns, append([]ssa.Instruction(nil), instrs...), onPath)
+					e := cfgEdge{b, i}
+					ns.Edges[e] = true
+					if stopEdge != nil && stopEdge(e) {
+						ee := e
+						record(absPath{Instrs: append([]ssa.Instruction(nil), instrs...), EndEdge: &ee, St: ns})
+						continue
+					}
+					walk(b.Succs[i], b, 0, ns, append([]ssa.Instruction(nil), instrs...), onPath)
 				}
 				return
 			case *ssa.Jump:
-				walk(b.Succs[0], b, st, instrs, onPath)
+				e := cfgEdge{b, 0}
+				if stopEdge != nil && stopEdge(e) {
+					st.Edges[e] = true
+					record(absPath{Instrs: instrs, EndEdge: &e, St: st})
+					return
+				}
+				walk(b.Succs[0], b, 0, st, instrs, onPath)
 				return
 			case *ssa.Return:
-				out = append(out, absPath{Instrs: instrs, Ret: x, St: st})
-				if len(out) > maxPaths {
-					ok = false
-				}
+				record(absPath{Instrs: instrs, Ret: x, St: st})
 				return
 			case *ssa.Panic:
 				return
 			}
 		}
 	}
-	walk(fn.Blocks[0], nil, &pathState{Phi: map[*ssa.Phi]ssa.Value{}, Edges: map[cfgEdge]bool{}}, nil, map[*ssa.BasicBlock]bool{})
+	walk(start, nil, startIdx, &pathState{Phi: map[*ssa.Phi]ssa.Value{}, Edges: map[cfgEdge]bool{}}, nil, map[*ssa.BasicBlock]bool{})
 	return out, ok
 }
 
